@@ -331,9 +331,15 @@ func c16Fonts() [][]byte {
 		}
 		seenFam[key] = true
 		c16FontData = append(c16FontData, files[i].Data)
-		if len(c16FontData) == 3 {
+		if len(c16FontData) == 2 {
 			break
 		}
+	}
+	// the third font uses another character map implementation (format 6): the scanner goes through other code for it
+	if f := corpus.Get("hb/harfbuzz_reference/aots/fonts/cmap6_font1.otf"); f != nil {
+		c16FontData = append(c16FontData, f.Data)
+	} else {
+		c16FontData = append(c16FontData, c16FontData[0])
 	}
 	return c16FontData
 }
